@@ -377,6 +377,12 @@ class Exporter:
                     body += b"".join(self.ix_value(f) for f in fs)
                 if not body:
                     continue
+                if not self.conformant and rng.random() < 0.2 and len(body) > 1:
+                    # a data set that stops in the middle of a record (inside a value, right after
+                    # a length prefix, between the 0xff marker and its 16-bit length): the set and
+                    # message lengths stay consistent, so the decoder gets all the way there
+                    cut = rng.randrange(1, len(body))
+                    body = body[:cut] + (b"\xff" if rng.random() < 0.3 else b"") + (b"\x00" if rng.random() < 0.2 else b"")
                 minrec = sum((1 if l == 65535 else l) for _, l, _ in fs)
                 # RFC 7011 3.3.2: padding is shorter than any allowable record (not only 0-3 octets)
                 pad = rng.randrange(0, min(16, max(1, minrec))) if rng.random() < 0.4 else 0
@@ -627,7 +633,11 @@ def stress_cases(rng, big=False):
     out.append(Case("stress:v9-zero-scope", ["P 0", "B 0 " + hexs(v9_pkt([v9_fs(1, be(260, 2) + be(4, 2) + be(4, 2) + be(1, 2) + be(0, 2) + be(1, 2) + be(4, 2)), v9_fs(260, bytes(8))]))]))
     # variable-length fields with lying prefixes
     out.append(Case("stress:ipfix-varlen", ["P 0", "B 0 " + hexs(ipfix_msg([ipfix_set(2, be(256, 2) + be(2, 2) + be(82, 2) + be(65535, 2) + be(1, 2) + be(4, 2))])),
-                                            "B 0 " + hexs(ipfix_msg([ipfix_set(256, b"\xff\xff\xff" + bytes(50))])), "B 0 " + hexs(ipfix_msg([ipfix_set(256, b"\xff\x00\x02ab" + bytes(4) + b"\x00" + bytes(4) + b"\xfe" + bytes(10))]))]))
+                                            "B 0 " + hexs(ipfix_msg([ipfix_set(256, b"\xff\xff\xff" + bytes(50))])), "B 0 " + hexs(ipfix_msg([ipfix_set(256, b"\xff\x00\x02ab" + bytes(4) + b"\x00" + bytes(4) + b"\xfe" + bytes(10))])),
+                                            # the set ends on the 0xff marker, one byte after it, on a length byte with nothing behind it
+                                            "B 0 " + hexs(ipfix_msg([ipfix_set(256, b"\x02ab" + bytes(4) + b"\xff")])), "B 0 " + hexs(ipfix_msg([ipfix_set(256, b"\xff")])),
+                                            "B 0 " + hexs(ipfix_msg([ipfix_set(256, b"\xff\x00")])), "B 0 " + hexs(ipfix_msg([ipfix_set(256, b"\x05ab")])),
+                                            "B 0 " + hexs(ipfix_msg([ipfix_set(256, b"\x00" + bytes(4) + b"\x03")]))]))
     # a large cache from history, then many small packets that need no template at all: cost must
     # not depend on what the parser holds
     nf = 12000 if big else 4000
